@@ -2,7 +2,7 @@
    Statements in Spec/C03_Disc_Spec.v, proofs in Proofs/C03_DiscProofs.v. *)
 From BV Require Import Base.Prelude Model.Block Model.ForkDB Model.Forkable Model.ForkableLookups
   Spec.Consumer Spec.Universe Spec.ForkChoice Spec.C01_Spec Spec.C01_Moving_Spec Spec.C01_Roots_Spec Spec.C03_Spec
-  Spec.C03_Disc_Spec Check.Fk_Check Check.Fk_Props_Check Proofs.C03_DiscProofs Properties.C03.
+  Spec.C03_Disc_Spec Check.Fk_Check Check.Fk_Props_Check Proofs.C03_DiscProofs Proofs.C03_DiscFull Properties.C03.
 Local Open Scope N_scope.
 
 (* partial: c03_discovery_full (Spec/C03_Disc_Spec.v) is the full statement against the holding reference fcd_step.
@@ -10,7 +10,7 @@ Local Open Scope N_scope.
    consumer on the path from the established LIB block a (the incoming block itself or a lower block received before) to the
    incoming block, which becomes the head, and announces a; from then on the run follows the reference fork choice fc_step
    rooted at a with every block fed so far as received (c03_follows, c03_noise).
-   Missing: that the establishing call and its LIB block are the ones fcd_step picks (a sits at the number the incoming
+   Missing HERE (all three closed by the theorem c03_discovery below): that the establishing call and its LIB block are the ones fcd_step picks (a sits at the number the incoming
    block declares / the incoming block is the first streamable block, and no earlier call qualifies); the retention and
    noise-deletion clauses across the discovery. *)
 Theorem c03_discovery_partial : c03_discovery_statement.
@@ -48,3 +48,28 @@ Example c03_discovery_nonvacuous :
   map (fun x => map (fun e => (estep e, bid (eblk e))) (fst x)) (firstn 2 (fk_run (cd_cfg 1) (fs_init LNone) cd_h)) =
     [[(SNew, 11); (SIrr, 11)]; [(SNew, 12)]].
 Proof. vm_compute. repeat split. Qed.
+
+(* FULL: c03_discovery_full of Spec/C03_Disc_Spec.v - the conclusion clauses of c03_moving_lib_roots_partial in the hub's
+   configuration (no configured LIB, hold-until-LIB, never-failing handler, class disc_scope2_b) against the HOLDING reference
+   fcd_step: the reference and the Forkable establish the LIB at the same call and on the same block (the incoming block when
+   it is the first streamable block or declares its own number, else its received ancestor at the number it declares); after
+   every call consumer tip = reference tip = reported head, stack = path to the established LIB, last final = reference final;
+   a call that leaves the reference's tip and LIB unchanged delivers nothing; the run is the same for every keptFinalBlocks
+   value (although the establishing call purges differently); a block the reference ignores can be deleted.
+   (c03_discovery_partial above is kept: it states the shape of the run in terms of the blocks fed so far.) *)
+Theorem c03_discovery : c03_discovery_full.
+Proof. exact c03_discovery_full_proved. Qed.
+Print Assumptions c03_discovery.
+
+(* non-vacuity of the retention and noise-deletion clauses: with no final block kept the establishing call and the LIB moves
+   purge blocks that retention 5 keeps, the runs agree; block 12 fed a second time (position 4) is ignored by the holding
+   reference, and so is block 11 fed again after the discovery (position 3) *)
+Definition cd_cfgk (k : N) : config := mkCfg 0 false true k false (mkFilter true true true true) None.
+Example c03_discovery_nonvacuous_full :
+  fk_run (cd_cfgk 0) (fs_init LNone) cd_h = fk_run (cd_cfgk 5) (fs_init LNone) cd_h /\
+  map (fun e => bid (eb e)) (store (db (last (fk_states (cd_cfgk 0) (fs_init LNone) cd_h) (fs_init LNone)))) <>
+  map (fun e => bid (eb e)) (store (db (last (fk_states (cd_cfgk 5) (fs_init LNone) cd_h) (fs_init LNone)))) /\
+  (let fc := fold_left (fcd_step 0 false) (firstn 4 cd_h) (fc_init LNone) in fcd_step 0 false fc cd_b2 = fc) /\
+  (let fc := fold_left (fcd_step 0 false) (firstn 3 cd_h) (fc_init LNone) in fcd_step 0 false fc cd_b1 = fc) /\
+  (let fc := fold_left (fcd_step 0 false) (firstn 1 cd_h) (fc_init LNone) in fcd_step 0 false fc cd_b1 = fc).
+Proof. vm_compute. repeat split. intros H. discriminate. Qed.
